@@ -188,7 +188,7 @@ def generate(rng, tier):
                 op["net"] = {"lat": op["net"].get("lat", 0), "body": ""}
             if rng.random() < 0.2:
                 # the thread first derives a fresh connection from the chosen one and sends through that
-                op["derive"] = rng.choice(["plain", "prefix", "mcaller"])
+                op["derive"] = rng.choice(["plain", "prefix", "mcaller", "copy"])
             if rng.random() < 0.06:
                 # the thread first attaches one more (do-nothing) adapter to the chosen connection with the public
                 # add_adapter(): the connection, and all derived from it before and after, keep their one sequence
@@ -309,6 +309,10 @@ def _derive_in_thread(w, kind):
     ch = hw.conn_http
     mh = hw.mcaller_http
     base = w.http_conn if hasattr(w, "http_conn") else w
+    if kind == "copy":
+        # every worker takes its private copy.copy() of the long-lived connection: still the same connection
+        import copy
+        return copy.copy(base), False
     if kind == "plain":
         return ch.HttpConn(base), False
     if kind == "prefix":
